@@ -56,6 +56,34 @@ theorem csr_csr_precount_eq_written (nRow nCol : Nat) (A B : CSR) (hA : A.WF) (h
   intro i _
   exact (length_rowEmit hA hBw i).symm
 
+/-- **csr_csr_kernel_full.** The complete `_dot_csr_csr` — pre-count, row loop and the final
+"if the result is completely dense, reverse every block of `n_col` entries" tail: whenever it
+returns `(data, indices, indptr)`, (1) the arrays are exactly as long as the pre-count allocated
+(no out-of-bounds write, no uninitialised slot), and (2) row `i` of the result (positions
+`indptr[i] .. indptr[i+1]`), looked up at column `k`, is `Σ_{j<n} a[i,j] · b[j,k]`.  The tail is
+harmless because a completely dense result forces every row to have exactly `n_col` entries
+(distinct columns below `n_col`: pigeonhole), so the blocks it reverses are the rows. -/
+theorem csr_csr_kernel_full (nRow n nCol : Nat) (A B : CSR) (hA : A.ColsIn n) (hAw : A.WF) (hBw : B.WF)
+    (hB : B.ColsIn nCol) (o : SparseOut) (ho : dotCsrCsr nRow nCol A B = .ok o) :
+    o.alloc = o.data.length ∧ o.indices.length = o.data.length ∧
+    ∀ i k, i < nRow →
+      lookupK (slice (o.indices.zip o.data) (o.indptr.getD i 0) (o.indptr.getD (i + 1) 0)) k
+        = matmulSpec n A.get B.get i k := by
+  obtain ⟨h1, h2, h3⟩ := dotCsrCsr_rows nRow nCol A B hAw hBw hB o ho
+  refine ⟨h1, h2, ?_⟩
+  intro i k hi
+  have key : lookupK (rowEmit (A.row i) B) k = matmulSpec n A.get B.get i k := by
+    rw [lookupK_rowEmit, contrib_touches]
+    exact rowsum_eq_spec n (A.row i) (fun j => B.get j k) (row_fst_lt hA i)
+  rcases h3 i hi with h | h
+  · rw [h]; exact key
+  · rw [h, lookupK_rowEmit_reverse]; exact key
+
+/-- non-vacuity for the tail: a completely dense 2×2 result; the rows are reversed back to `[0, 1]` -/
+example : dotCsrCsr 2 2 { indptr := [0, 2, 4], indices := [0, 1, 0, 1], data := [1, 1, 1, 1] }
+    { indptr := [0, 2, 4], indices := [0, 1, 0, 1], data := [1, 2, 3, 4] }
+    = .ok { data := [4, 6, 4, 6], indices := [0, 1, 0, 1], indptr := [0, 2, 4], alloc := 4 } := by rfl
+
 /-- non-vacuity and the order finding: a 1×2 times 2×4 product (canonical operands) whose row comes
 out as columns `[1, 2, 0]` (reverse first touch), although the values are right -/
 def exC : CSR := { indptr := [0, 2], indices := [0, 1], data := [1, 1] }
@@ -77,6 +105,41 @@ theorem rows_sorted_counterexample : ¬ Statement_csr_csr_rows_sorted := by
   have := h 1 4 exC exD _ (by decide) (by decide) (by decide) e 0 (by decide)
   revert this
   decide
+
+/-! ### `_dot_csr_ndarray_sparse` -/
+
+/-- **csr_nd_sparse_kernel_spec.** `_dot_csr_ndarray_sparse`: the pre-count `_csr_ndarray_count_nnz`
+allocates exactly the entries written, `indptr` delimits the rows, and row `i` looked up at column
+`k < n_col` is `Σ_{j<n} a[i,j] · b[j,k]` (a column is skipped only when every factor `b[j,k]` met by the
+row is 0, and then the sum is 0). -/
+theorem csr_nd_sparse_kernel_spec (nRow n nCol : Nat) (A : CSR) (b : Dense) (hA : A.ColsIn n) (hAw : A.WF) :
+    (dotCsrNdSparse nRow nCol A b).alloc = (dotCsrNdSparse nRow nCol A b).data.length ∧
+    ∀ i k, i < nRow → k < nCol →
+      lookupK (slice ((dotCsrNdSparse nRow nCol A b).indices.zip (dotCsrNdSparse nRow nCol A b).data)
+          ((dotCsrNdSparse nRow nCol A b).indptr.getD i 0) ((dotCsrNdSparse nRow nCol A b).indptr.getD (i + 1) 0)) k
+        = matmulSpec n A.get (dget b) i k := by
+  obtain ⟨h1, h2, h3⟩ := dotCsrNdSparse_closed nRow nCol A b hAw
+  refine ⟨h3, ?_⟩
+  intro i k hi hk
+  rw [rows_slice (fun i => dotCsrNdSparseRow nCol (A.row i) b) nRow _ _ h1 h2 i hi, dotCsrNdSparseRow_eq,
+    lookupK_filter_map]
+  have hspec := rowsum_eq_spec n (A.row i) (fun j => dget b j k) (row_fst_lt hA i)
+  unfold matmulSpec CSR.get
+  rw [← hspec]
+  by_cases hhit : ((A.row i).any fun e => dget b e.1 k != 0) = true
+  · simp [hk, hhit]
+  · simp only [hk, hhit, and_false, if_false]
+    symm
+    apply sum_map_eq_zero
+    intro e he
+    have : dget b e.1 k = 0 := by
+      simp only [List.any_eq_true, not_exists, not_and, bne_iff_ne, ne_eq, Decidable.not_not] at hhit
+      exact hhit e he
+    rw [this, Int.mul_zero]
+
+/-- non-vacuity: the cancelling sum of column 0 is written as an explicit 0 (`_dot` prunes it afterwards) -/
+example : (dotCsrNdSparse 2 2 exA exB).data = [0, 4] ∧ (dotCsrNdSparse 2 2 exA exB).indices = [0, 1]
+    ∧ (dotCsrNdSparse 2 2 exA exB).indptr = [0, 2, 2] ∧ (dotCsrNdSparse 2 2 exA exB).alloc = 2 := by decide
 
 /-! ### `_dot_coo_coo` -/
 
